@@ -32,6 +32,7 @@ type vfShape struct {
 	sliceLen int
 	noGate   bool // populate fields regardless of their version annotation (C05)
 	onlyPath string
+	text     bool // text-encoding friendly: enumerations and masks concrete, strings lower-case letters
 }
 
 var vfObjectTypes = []ObjectType{ObjectTypeCertificate, ObjectTypeSymmetricKey, ObjectTypePublicKey, ObjectTypePrivateKey, ObjectTypeSplitKey,
@@ -170,6 +171,10 @@ func vfPopulate(v reflect.Value, sh *vfShape, path string, omit bool) {
 	case reflect.Bool:
 		v.SetBool(verifNondetBool(path))
 	case reflect.Int32:
+		if sh.text && strings.HasSuffix(t.Name(), "Mask") {
+			v.SetInt(0x0C)
+			return
+		}
 		x := verifNondetInt32(path)
 		if omit {
 			if sh.zero {
@@ -190,6 +195,10 @@ func vfPopulate(v reflect.Value, sh *vfShape, path string, omit bool) {
 		}
 		v.SetInt(x)
 	case reflect.Uint32:
+		if sh.text {
+			v.SetUint(1)
+			return
+		}
 		x := verifNondetUint32(path)
 		if omit {
 			if sh.zero {
@@ -204,7 +213,13 @@ func vfPopulate(v reflect.Value, sh *vfShape, path string, omit bool) {
 		if sh.minimal && omit {
 			n = 0
 		}
-		v.SetString(verifNondetString(path, n))
+		str := verifNondetString(path, n)
+		if sh.text {
+			for i := 0; i < len(str); i++ {
+				verifAssume(str[i] >= 'a' && str[i] <= 'z')
+			}
+		}
+		v.SetString(str)
 	case reflect.Slice:
 		if t.Elem().Kind() == reflect.Uint8 {
 			n := sh.bytesLen
@@ -438,13 +453,17 @@ func vfEqual(a, b reflect.Value) bool {
 
 func vfShapeOf(shapeIdx, minor int) *vfShape {
 	sh := &vfShape{minor: minor, strLen: 3, bytesLen: 9, bigLen: 9, sliceLen: 1}
-	// shapeIdx: bit0 minimal, bit1 zero-omitempty, bit2 wrapped, bit3 negative big integers, bit4 two-element slices
+	// shapeIdx: bit0 minimal, bit1 zero-omitempty, bit2 wrapped, bit3 negative big integers, bit4 two-element slices, bit5 8-byte big integers
 	sh.minimal = shapeIdx&1 != 0
 	sh.zero = shapeIdx&2 != 0
 	sh.wrapped = shapeIdx&4 != 0
 	sh.bigNeg = shapeIdx&8 != 0
 	if shapeIdx&16 != 0 {
 		sh.sliceLen = 2
+	}
+	if shapeIdx&32 != 0 {
+		// magnitudes that fill a whole 8-byte block (sign extension needs a block of its own)
+		sh.bigLen = 8
 	}
 	return sh
 }
